@@ -126,7 +126,14 @@ def check_taper (g, obj, l, bad, scale, size = 0.0):
 def check (spec0):
     spec = spec0 if 'geo' in spec0 else make (spec0)
     before = instrument.EVALS ['compute_segments.tiling']
-    m    = gen.build (spec)
+    # the objects are handed over through the command line or through the classes of the library (there also with the
+    # container's tags computed after the whole-structure requests, or after the first object only, and with
+    # whole numbers as python ints): the documented geometry is the same
+    route = ['cli', 'cli', 'api', 'api-late', 'api-split', 'api-ints'] [int (common.sha ([spec ['geo'], spec.get ('tr'), spec.get ('sc')]), 16) % 6]
+    if route == 'cli':
+        m = gen.build (spec)
+    else:
+        m = gen.build (spec, route = 'api', tags = dict ([('api-late', 'late'), ('api-split', 'split')]).get (route, 'early'), ints = route in ('api-ints', 'api-split'))
     if instrument.EVALS ['compute_segments.tiling'] == before:
         return dict (status = 'inconclusive', reason = 'tiling contract not evaluated')
     ref  = georef.transformed_objects (spec)
@@ -224,7 +231,7 @@ def check (spec0):
             break
     trk = sorted (set ((t [0][0] + ('T' if t [3] else '')) for t in spec.get ('tr') or []))
     sck = sorted (set (('s' + ('T' if s [1] else '')) for s in spec.get ('sc') or []))
-    sig = '|'.join ([','.join (sorted (feats)), ','.join (trk), ','.join (sck)])
+    sig = '|'.join ([','.join (sorted (feats)), ','.join (trk), ','.join (sck), route])
     nontrivial = bool (trk or sck or (feats - {'w', 'w1'}))
     return dict ( status = 'violation' if viol else 'held', sig = sig, nontrivial = nontrivial
                 , monitors = mon, violations = viol [:6])
